@@ -61,6 +61,9 @@ class GenCtx:
         self.names[0] += 1
         return "%s%d" % (prefix, self.names[0])
 
+    parent_name = None      # name under which the struct being generated is nested (for same-name nesting)
+    used_names = None
+
     def has(self, k):
         return k in self.frag
 
@@ -188,8 +191,26 @@ def gen_mapped(draw, g, kind):
     if kind == "flagsenum":
         nbits = 8 * s[1]
         positions = draw(st.lists(st.integers(0, nbits - 1), min_size=1, max_size=4, unique=True))
-        labels = LABELS[:len(positions)]
-        return ["flagsenum", s, [[l, 1 << p] for l, p in zip(labels, positions)], draw(st.sampled_from(["kw", "intenum"]))]
+        masks = [1 << p for p in positions]
+        # composite labels (RW = R|W), arbitrary multi-bit masks and, rarely, a zero mask: decode is "all bits of the mask set"
+        for _ in range(draw(st.integers(0, 2))):
+            extra = draw(st.sampled_from(["union", "any", "zero"]))
+            if extra == "union" and len(masks) >= 2:
+                m = 0
+                for x in draw(st.lists(st.sampled_from(masks), min_size=2, max_size=3, unique=True)):
+                    m |= x
+            elif extra == "zero":
+                m = 0 if draw(st.integers(0, 3)) == 0 else draw(st.integers(1, (1 << nbits) - 1))
+            else:
+                m = draw(st.integers(1, (1 << nbits) - 1))
+            if m not in masks:
+                masks.append(m)
+        labels = LABELS[:len(masks)]
+        # enum.IntFlag iteration yields only canonical single-bit members on Python >= 3.11, so the enum-class spelling is
+        # used for single-bit tables only (composite members of an IntFlag class are not merged by FlagsEnum)
+        canonical = all(m and not (m & (m - 1)) for m in masks)
+        via = draw(st.sampled_from(["kw", "intenum"])) if canonical else "kw"
+        return ["flagsenum", s, [[l, m] for l, m in zip(labels, masks)], via]
     vals = draw(st.lists(st.integers(0, min(hi, 300)), min_size=1, max_size=4, unique=True))
     if kind == "enum":
         return ["enum", s, [[l, v] for l, v in zip(LABELS, vals)], draw(st.sampled_from(["kw", "intenum"]))]
@@ -269,6 +290,8 @@ def gen_struct(draw, g, min1=False):
     ngroups = draw(st.integers(1, 3 if g.depth > 0 else 2))
     members = []
     inner = GenCtx(g.frag, g.depth, False, [(l + 1, n, k) for l, n, k in g.ints], g.params, g.bit, g.ctxfree, g.names)
+    inner.parent_name = g.parent_name
+    inner.used_names = set()
     for gi in range(ngroups):
         last = gi == ngroups - 1
         inner.tail = g.tail and last
@@ -293,6 +316,9 @@ def gen_group(draw, g):
     o = draw(st.sampled_from(opts))
     if o == "plain":
         name = g.fresh()
+        if g.parent_name and g.used_names is not None and g.parent_name not in g.used_names and draw(st.integers(0, 3)) == 0:
+            name = g.parent_name        # a member may carry the same name as the member that encloses it ("data" -> "data")
+            g.used_names.add(name)
         spec = gen_spec(draw, g.child())
         if g.has("docs") and draw(st.integers(0, 7)) == 0:
             reg = spec[0] == "int" and int_range(spec)[1] >= 5 and not g.ctxfree
@@ -391,7 +417,7 @@ def gen_group(draw, g):
     if o == "nested" and g.depth > 0:
         name = g.fresh()
         kind = draw(st.sampled_from(["struct", "struct", "seq", "fseq"]))
-        sub = gen_struct(draw, g.child())
+        sub = gen_struct(draw, g.child(parent_name=name))
         if kind == "seq" and g.has("seq") and not any(s[0] == "rebuild" for _, s in sub[1]):
             # (a Sequence is built from a list, so Rebuild members cannot look ahead at later siblings)
             mem = [[nm if draw(st.booleans()) else (nm if _referenced(sub[1], nm) else None), s] for nm, s in sub[1]]
